@@ -232,6 +232,7 @@ def gen_decl(rng):
             continue
         nodes[i]['params'][j][1] = ['rec', s0, d, rng.choice([1, 2, 3])]
     spec['unnamed_switch'] = rng.random() < 0.3
+    spec['unnamed_switches'] = spec['unnamed_switch']      # the engine-level harness's name for the same choice (progspec.node_id_maps)
     ps.spec_defaults(spec)
     return prof, spec
 
@@ -252,7 +253,9 @@ def main():
     if prop == 'C15' and seed % 1000 == 0:
         # replay the witness of known finding D13
         kf = [f for f in json.load(open(os.path.join(HERE, '..', 'known_findings.json')))['findings'] if f['id'] == 'D13'][0]
-        wspec = ps.spec_defaults(json.loads(json.dumps(kf['witness']['spec'])))
+        wspec = json.loads(json.dumps(kf['witness']['spec']))
+        wspec['unnamed_switches'] = bool(wspec.get('unnamed_switch'))
+        wspec = ps.spec_defaults(wspec)
         wc = materialize(wspec, {}, '_kfD13')
         wd = build_dag(input_node=wc[0], output_node=wc[-1])
         wr = real_graph(wd, ps.node_id_maps(wspec, wc, '_kfD13'))
